@@ -28,7 +28,9 @@ RULE = ('cases = (method, parameters, created with/without x (and z), cache stat
         'serial result bit for bit and no call may raise; schedules: every single pre-emption point in the first 30 accesses plus '
         'evenly spaced later ones, random double pre-emptions, random 3-thread interleavings; single-thread access traces of every '
         'method / start state against the Lean protocol programs; model schedules replayed on the real polynomial cache with equal and '
-        'different orders (predicted outcome vs real); non-trivial = the threads really interleaved (both took steps before either '
+        'different orders (predicted outcome vs real); every array reachable from a warmed-up shared fitter is made read-only and each method '
+        'called again (an in-place write into shared array CONTENTS is then located and turned into a concrete failing schedule by '
+        'pre-emption before every line of the writing functions); non-trivial = the threads really interleaved (both took steps before either '
         'finished); distinct by canonical tuple')
 ASSUMPTIONS = [
     'pre-emption is explored at attribute-access granularity on the shared fitter and its cache helpers (runtime subclasses report '
@@ -170,10 +172,10 @@ def call(obj, job, y, kw):
             return getattr(obj, job['name'])(y, **kw)
 
 
-def run_plan(job, plan, nthreads, only=None):
+def run_plan(job, plan, nthreads, only=None, focus=None):
     x, z, y = data_for(job)
     kw = kwargs_for(job, y)
-    s = SC.Sched(plan, only=only)
+    s = SC.Sched(plan, only=only, focus=focus)
     with SC.instrumented(s, job['two_d']) as cls:
         obj = make_obj(cls, job, x, z)
         try:
@@ -288,6 +290,117 @@ def explore_job(args):
         if len(out['fails']) >= 3:
             break
     return out
+
+
+# ---------------------------------------------------------------- in-place writes into arrays reachable from the shared object
+def reachable_arrays(obj, depth=0, seen=None, path='self'):
+    import scipy.sparse as sp
+    seen = set() if seen is None else seen
+    out = []
+    if id(obj) in seen or depth > 4:
+        return out
+    seen.add(id(obj))
+    if isinstance(obj, np.ndarray):
+        out.append((path, obj))
+        if isinstance(obj.base, np.ndarray):
+            out += reachable_arrays(obj.base, depth + 1, seen, path + '.base')
+        return out
+    if sp.issparse(obj):
+        for a in ('data', 'indices', 'indptr', 'offsets'):
+            if hasattr(obj, a):
+                out += reachable_arrays(getattr(obj, a), depth + 1, seen, f'{path}.{a}')
+        return out
+    if isinstance(obj, (list, tuple)):
+        for i, v in enumerate(obj):
+            out += reachable_arrays(v, depth + 1, seen, f'{path}[{i}]')
+        return out
+    d = getattr(obj, '__dict__', None)
+    if d is not None and type(obj).__module__.startswith('pybaselines'):
+        for k, v in d.items():
+            out += reachable_arrays(v, depth + 1, seen, f'{path}.{k}')
+    return out
+
+
+def shared_array_writes(ctx, jobs, dis):
+    """Every array reachable from a warmed-up shared fitter is made read-only and the method is called again: a call that writes
+    in place into such an array races with concurrent calls on its CONTENTS (attribute-level pre-emption cannot see that).  The
+    location of the write is then used to search, with pre-emption before every line of the writing functions, for a concrete
+    schedule on which a call's result differs from the serial one."""
+    import traceback
+    from pybaselines import Baseline, Baseline2D
+    seen = set()
+    for job in jobs:
+        if job['scenario'] != 'warm' or not job['with_x']:
+            continue
+        key = (job['two_d'], job['name'], json.dumps(job['kw'], sort_keys=True, default=str))
+        if key in seen:
+            continue
+        seen.add(key)
+        x, z, y = data_for(job)
+        kw = kwargs_for(job, y)
+        obj = (Baseline2D(x, z) if job['two_d'] else Baseline(x))
+        try:
+            prepare(obj, job, y, kw)
+        except Exception:          # noqa: BLE001
+            continue
+        arrs = reachable_arrays(obj)
+        flags = [(a, a.flags.writeable) for _, a in arrs]
+        for _, a in arrs:
+            try:
+                a.setflags(write=False)
+            except ValueError:
+                pass
+        hit = None
+        try:
+            call(obj, job, y, kw)
+        except ValueError as ex:
+            if 'read-only' in str(ex):
+                fr = [f for f in traceback.extract_tb(ex.__traceback__) if 'pybaselines' in f.filename]
+                hit = [(os.path.basename(f.filename), f.name, f.lineno) for f in fr]
+        except Exception:          # noqa: BLE001
+            pass
+        finally:
+            for a, w in flags:
+                try:
+                    a.setflags(write=w)
+                except ValueError:
+                    pass
+        ctx.case(('frozen-shared-arrays', job['two_d'], job['name']), nontrivial=len(arrs) > 1)
+        ctx.count('frozen-call:' + ('writes-shared-array' if hit else 'ok'))
+        if not hit:
+            continue
+        nm = ('2d.' if job['two_d'] else '') + job['name']
+        where = f'{hit[-1][0]}:{hit[-1][2]} ({hit[-1][1]})'
+        focus = sorted({(h[0], h[1]) for h in hit[-2:]})
+        # concrete schedule: pre-emption before every line of the writing function(s)
+        r1, r2, k, _, _, err = serial(job)
+        found = None
+        if not err and r1 is not None:
+            res, s0, err2 = run_plan(job, [0] * 100000, 2, focus=focus)
+            npts = len([e for e in s0.log if e[0] == 0]) if not err2 else 0
+            for i in list(range(0, min(npts, 400))):
+                try:
+                    res, s, e2 = run_plan(job, [0] * i + [1], 2, focus=focus)
+                except SC.Deadlock:
+                    continue
+                if e2:
+                    break
+                bad = [t for t, r in sorted(res.items()) if SC.canon(r) not in {r1, r2}]
+                if bad:
+                    r = res[bad[0]]
+                    found = (i, bad[0], (f'{r[1]}: {r[2]}' if r[0] == 'err' else 'returned a different baseline / params than the serial call'))
+                    break
+        if found:
+            i, t, outcome = found
+            dis.append(Disagreement('c04.shared-array', f'{nm}:shared-array-write', f'{nm}({job["kw"]}) writes in place into an array reachable from the shared fitter at '
+                                    f'{where}; with pre-emption before every line of {focus}, schedule 0x{i} 1x1 makes thread {t} -> {outcome} (serial calls succeed)',
+                                    {'job': job, 'plan': [0] * i + [1], 'threads': 2, 'focus': [list(f) for f in focus]}, True))
+        else:
+            dis.append(Disagreement('c04.shared-array', f'model:shared-array-write:{nm}', f'{nm}({job["kw"]}) writes in place into an array reachable from the shared fitter at '
+                                    f'{where}: concurrent calls race on its contents, which no protocol model covers (no failing schedule was found by line-level '
+                                    f'pre-emption)', {'job': job, 'where': where}, False))
+        if len([d for d in dis if d.stage == 'c04.shared-array']) >= 3:
+            break
 
 
 # ---------------------------------------------------------------- trace correspondence
@@ -547,6 +660,7 @@ def correspond(ctx):
     # trace correspondence on a subset (all poly / spline jobs, others sampled)
     tj = [j for j in jobs if j['family'] in ('poly', 'spline') or rng.random() < 0.3]
     trace_checks(ctx, tj, dis)
+    shared_array_writes(ctx, jobs, dis)
     model_replay(ctx, rng, dis, 12 if not ctx.thorough else 80)
     return dis
 
@@ -574,7 +688,7 @@ def replay(ctx, data):
     if err:
         return err
     for plan in rp.get('plans') or [rp['plan']]:
-        res, s, err = run_plan(job, plan, rp.get('threads', 2))
+        res, s, err = run_plan(job, plan, rp.get('threads', 2), focus=[tuple(f) for f in rp.get('focus', [])] or None)
         if err:
             return err
         for t, r in sorted(res.items()):
